@@ -431,6 +431,7 @@ class HarnessRT(object):
         self.book = None
         self.track_running = True
         self.label = ""
+        self.cancelled_batches = 0
         self.in_flush_sync = 0
         self.nested_flush_calls = 0
         self.fh_counter = itertools.count()
@@ -742,6 +743,17 @@ class HarnessRT(object):
         fr.futs.pop()
         self.orphans.append(leaf)
         self.emit("orphan", leaf.kind, leaf.path if leaf.path is not None else leaf.inst)
+
+    def cancel_batch(self, fr, st):
+        b = self.active_batches.get(st[1])
+        if b is None or b.is_flushed():
+            return
+        pending = [it for it in b.items if not it.is_computed()]
+        b.cancel()
+        self.emit("cancel", b.bid, tuple(it.inst for it in pending))
+        self.cancelled_batches += 1
+        for it in pending:
+            self.item_done[it.inst] = ("exc", exc_desc(it.error()))
 
     def sync_item(self, fr, st):
         _, site, kind, key = st
